@@ -101,7 +101,7 @@ func genC08(seed uint64, tier string) *plan.Plan {
 				pl.Ops = append(pl.Ops[:len(pl.Ops)-1], plan.Op{K: "emptyprep", A: int64(r.IntN(nT))}, pl.Ops[len(pl.Ops)-1])
 			}
 			if r.IntN(8) == 0 {
-				pl.Ops = append(pl.Ops, plan.Op{K: "resend", S: []string{"", "prep"}[r.IntN(2)]})
+				pl.Ops = append(pl.Ops, plan.Op{K: "resend", S: []string{"", "prep", "grow"}[r.IntN(3)], C: int64(r.Uint64() >> 1)})
 			}
 			if r.IntN(12) == 0 {
 				pl.Ops = append(pl.Ops, plan.Op{K: "tmplagain", A: int64(r.IntN(nT))})
